@@ -20,7 +20,7 @@ COUNTS = {'quick': 360, 'thorough': 12000}
 BUDGET = {'quick': 110, 'thorough': 1500}
 TIMEOUT = 150
 SHRINK_LISTS = [['events'], ['faults'], ['segments_cut']]
-EXPECTED_PROBES = ['event_fired', 'resumed', 'step_rejected', 'coincident_events', 'event_at_boundary',
+EXPECTED_PROBES = ['event_enabled_after_init', 'enabled_after_init_fired', 'event_disabled_after_init', 'event_fired', 'resumed', 'step_rejected', 'coincident_events', 'event_at_boundary',
                    'disabled_event', 'variable_step']
 RULE = ('plan = seeded (stock case, knobs+channels, event devices from 14 time classes, resume boundaries, forced '
         'rejections); non-trivial = at least one event fired; distinct = coverage signature (sorted multiset of '
@@ -58,6 +58,14 @@ def elaborate(stub):
     plan = {'property': PROP, 'seed': seed, 'case': case['case'], 'knobs': knobs, 'channels': channels,
             'disable_stock_events': stream(seed, 'stock').random() < 0.5,
             'tf': tf, 'segments_cut': segs[:-1], 'events': [], 'faults': [], '_classes': [], '_need_devices': True}
+    bt = stream(seed, 'between')
+    if len(segs) > 1 and bt.random() < 0.6:
+        # between two resumed segments the user puts an event whose time has not come yet in or out of service
+        plan['between'] = [{'kind': 'set_event_u', 'after_segment': bt.randrange(len(segs) - 1), 'pick': round(bt.random(), 4),
+                            'u': bt.choice([1, 1, 1, 0]), 'horizon': tf}]
+        if bt.random() < 0.3:
+            plan['between'].append({'kind': 'set_event_u', 'after_segment': bt.randrange(len(segs) - 1), 'pick': round(bt.random(), 4),
+                                    'u': bt.choice([1, 0]), 'horizon': tf})
     return plan
 
 
@@ -130,6 +138,10 @@ def execute(plan):
             'toggle_fired': sum(1 for r in fired if r['model'] == 'Toggle'),
             'fault_fired': sum(1 for r in fired if r['model'] == 'Fault'),
             'alter_fired': sum(1 for r in fired if r['model'] == 'Alter'),
+            'event_enabled_after_init': (hist.get('probes') or {}).get('event_enabled_after_init', 0),
+            'event_disabled_after_init': (hist.get('probes') or {}).get('event_disabled_after_init', 0),
+            'enabled_after_init_fired': sum(1 for b_ in hist.get('between', []) if b_.get('u') == 1 and
+                                            any(r['model'] == b_['event'][0] and r['idx'] == b_['event'][1] for r in fired)),
         }
         res['faults'] = dict(hist['faults_fired'])
         kinds = sorted((e['model'], c, e['params'].get('u', 1)) for e, c in
@@ -174,6 +186,12 @@ def simplify(plan):
 
 
 REGRESSION = [
+    {'property': PROP, 'seed': 4, 'case': 'kundur/kundur_full.xlsx', 'knobs': {'TDS.tstep': 1 / 30},
+     'channels': {}, 'disable_stock_events': True, 'tf': 2.5, 'segments_cut': [1.0],
+     'events': [{'model': 'Toggle', 'params': {'model': 'Line', 'dev': 'Line_3', 't': 1.5, 'u': 0, 'idx': 'R5'}}],
+     'between': [{'kind': 'set_event_u', 'after_segment': 0, 'pick': 0.0, 'u': 1, 'horizon': 2.5},
+                 {'kind': 'set_event_u', 'after_segment': 0, 'pick': 0.9, 'u': 1, 'horizon': 2.5}],
+     'faults': [], '_classes': ['inside']},
     # event exactly at t0 (dropped on the pinned tree: known finding), at tf, coincident pair, disabled event
     {'property': PROP, 'seed': 1, 'case': 'kundur/kundur_full.xlsx', 'knobs': {'TDS.tstep': 1 / 30},
      'channels': {}, 'disable_stock_events': True, 'tf': 1.0, 'segments_cut': [],
